@@ -378,8 +378,40 @@ def endpoint_finite(chk, repo, rule="Z6"):
                 v0 = sp.simplify(v0)
             except Exception:
                 v0 = sp.nan
+            # floating-point evaluation is not algebra: 0 * inf is nan although k / sqrt(k) -> 0.  Every
+            # intermediate value that reaches cd (last executed definition of each local it is built from)
+            # must be finite at the end point as well.
+            inter_bad = None
+            last = {}
+            for e_ in r.events:
+                if e_.kind == "assign" and e_.func is f and isinstance(e_.node, (ast.Assign, ast.AugAssign)):
+                    last[e_.d.get("name")] = e_
+            seen_n, work = set(), ["cd"]
+            while work:
+                nm = work.pop()
+                if nm in seen_n or nm not in last:
+                    continue
+                seen_n.add(nm)
+                e_ = last[nm]
+                vv = e_.d.get("val")
+                dv = vv.dom.get("SYMX") if vv is not None else None
+                if dv is not None and not isinstance(dv, sp.MatrixBase):
+                    ks2 = [s_ for s_ in dv.free_symbols if s_.name.startswith("cfg:") and "k_lam" in s_.name]
+                    try:
+                        val2 = dv.subs({s_: sp.Symbol("u%d" % i, positive=True) for i, s_ in enumerate(sorted(dv.free_symbols - set(ks2), key=str))}).subs({k_: sp.Integer(int(kval)) for k_ in ks2})
+                    except Exception:
+                        val2 = sp.nan
+                    if val2.has(sp.zoo, sp.nan, sp.oo, -sp.oo):
+                        inter_bad = (nm, e_.lineno, dv)
+                        break
+                rhs = e_.node.value
+                for x_ in ast.walk(rhs):
+                    if isinstance(x_, ast.Name):
+                        work.append(x_.id)
             if v0.has(sp.zoo, sp.nan, sp.oo, -sp.oo):
                 chk.violation(rule, key, c.where, "the friction coefficient %s is not finite at the admissible value k_lam = %g (the branch taken for this value divides by the transition Reynolds number Re_c k_lam)" % (_short(cd), kval), algebraic=True)
+            elif inter_bad:
+                chk.violation(rule, key, "%s:%d" % (c.mod.rel, inter_bad[1]), "at the admissible value k_lam = %g the intermediate '%s' = %s that reaches cd is infinite (it is later multiplied by k_lam = 0: 0 * inf = nan in floating point)" % (kval, inter_bad[0], _short(inter_bad[2])), algebraic=True)
             else:
                 chk.ok(rule, key, c.where, "finite: %s" % _short(v0), algebraic=True)
         if not hit:
